@@ -248,6 +248,10 @@ impl<'a> Http2Parser<'a> {
         let Some(stream_id) = self.find_primary_stream(&frames) else {
             return Ok(None);
         };
+        if first_header_block(stream_id, &frames).is_none() {
+            // END_HEADERS not received yet: the header block is still incomplete
+            return Ok(None);
+        }
         let stream = self.build_stream(stream_id, &frames)?;
 
         let method = stream
@@ -330,6 +334,10 @@ impl<'a> Http2Parser<'a> {
         let Some(stream_id) = self.find_primary_stream(&frames) else {
             return Ok(None);
         };
+        if first_header_block(stream_id, &frames).is_none() {
+            // END_HEADERS not received yet: the header block is still incomplete
+            return Ok(None);
+        }
         let stream = self.build_stream(stream_id, &frames)?;
 
         let status = stream
@@ -557,29 +565,20 @@ impl<'a> Http2Parser<'a> {
         // (of this or of any other connection).
         *self.hpack_decoder.borrow_mut() = Decoder::new();
 
-        let stream_frames: Vec<&Http2Frame> =
-            frames.iter().filter(|f| f.stream_id == stream_id).collect();
-
-        for frame in stream_frames {
-            match frame.frame_type {
-                Http2FrameType::Headers | Http2FrameType::Continuation => {
-                    let frame_headers = self.parse_headers_payload(&frame.payload)?;
-                    for header in frame_headers {
-                        match header.name.as_str() {
-                            ":method" => method = Some(header.value.clone().unwrap_or_default()),
-                            ":path" => path = Some(header.value.clone().unwrap_or_default()),
-                            ":authority" => {
-                                authority = Some(header.value.clone().unwrap_or_default())
-                            }
-                            ":scheme" => scheme = Some(header.value.clone().unwrap_or_default()),
-                            ":status" => {
-                                status = header.value.as_ref().and_then(|v| v.parse().ok())
-                            }
-                            _ => headers.push(header),
-                        }
-                    }
+        // The header block is only decodable as a whole: the fragment of the HEADERS frame
+        // (without Pad Length, priority fields and padding) plus the CONTINUATION fragments up
+        // to END_HEADERS. Until END_HEADERS has arrived nothing is reported for the stream.
+        if let Some(block) = first_header_block(stream_id, frames) {
+            let block_headers = self.parse_headers_payload(&block)?;
+            for header in block_headers {
+                match header.name.as_str() {
+                    ":method" => method = Some(header.value.clone().unwrap_or_default()),
+                    ":path" => path = Some(header.value.clone().unwrap_or_default()),
+                    ":authority" => authority = Some(header.value.clone().unwrap_or_default()),
+                    ":scheme" => scheme = Some(header.value.clone().unwrap_or_default()),
+                    ":status" => status = header.value.as_ref().and_then(|v| v.parse().ok()),
+                    _ => headers.push(header),
                 }
-                _ => {}
             }
         }
 
@@ -681,6 +680,52 @@ impl<'a> Http2Parser<'a> {
 
         cookies
     }
+}
+
+const FLAG_END_HEADERS: u8 = 0x4;
+const FLAG_PADDED: u8 = 0x8;
+const FLAG_PRIORITY: u8 = 0x20;
+
+/// Returns the complete header block of the first HEADERS frame on `stream_id`.
+///
+/// The block is the header block fragment of the HEADERS frame, with the Pad Length octet,
+/// the five priority octets and the trailing padding removed when the PADDED / PRIORITY flags
+/// say they are present (RFC 7540 section 6.2), followed by the fragments of the CONTINUATION
+/// frames up to the frame carrying END_HEADERS (section 6.10). Returns `None` while
+/// END_HEADERS has not been seen, or when the padding does not fit the frame.
+pub fn first_header_block(stream_id: u32, frames: &[Http2Frame]) -> Option<Vec<u8>> {
+    let mut block: Vec<u8> = Vec::new();
+    let mut started = false;
+    for frame in frames.iter().filter(|f| f.stream_id == stream_id) {
+        match frame.frame_type {
+            Http2FrameType::Headers if !started => {
+                started = true;
+                let mut fragment: &[u8] = &frame.payload;
+                let mut padding = 0usize;
+                if frame.flags & FLAG_PADDED != 0 {
+                    let (pad_length, rest) = fragment.split_first()?;
+                    padding = usize::from(*pad_length);
+                    fragment = rest;
+                }
+                if frame.flags & FLAG_PRIORITY != 0 {
+                    fragment = fragment.get(5..)?;
+                }
+                let fragment_end = fragment.len().checked_sub(padding)?;
+                block.extend_from_slice(fragment.get(..fragment_end)?);
+                if frame.flags & FLAG_END_HEADERS != 0 {
+                    return Some(block);
+                }
+            }
+            Http2FrameType::Continuation if started => {
+                block.extend_from_slice(&frame.payload);
+                if frame.flags & FLAG_END_HEADERS != 0 {
+                    return Some(block);
+                }
+            }
+            _ => {}
+        }
+    }
+    None
 }
 
 pub fn is_http2_traffic(data: &[u8]) -> bool {
